@@ -95,6 +95,111 @@ def analyse():
     return loops
 
 
+# ---------------------------------------------------------------- C integer expressions -> Coq Z
+def c_tokens(txt):
+    toks = re.findall(r"\s*(->|[A-Za-z_]\w*|\d+|[()+\-*,])", txt)
+    if "".join(toks) != re.sub(r"\s+", "", txt):
+        raise TranslateError("cannot tokenise C expression: %r" % txt)
+    return toks
+
+
+def c_expr(txt):
+    """+,-,*, parentheses, MIN/MAX(a,b), identifiers, settings->field  ->  (coq text, sorted free variables)"""
+    toks = c_tokens(txt)
+    pos = [0]
+    free = set()
+
+    def peek():
+        return toks[pos[0]] if pos[0] < len(toks) else None
+
+    def eat(t=None):
+        x = peek()
+        if x is None or (t is not None and x != t):
+            raise TranslateError("C expression %r: expected %r, found %r" % (txt, t, x))
+        pos[0] += 1
+        return x
+
+    def atom():
+        x = eat()
+        if x == "(":
+            e = expr()
+            eat(")")
+            return "(%s)" % e
+        if x == "-":
+            return "(- %s)" % atom()
+        if re.fullmatch(r"\d+", x):
+            return x
+        if x in ("MIN", "MAX"):
+            eat("(")
+            a = expr()
+            eat(",")
+            b = expr()
+            eat(")")
+            return "(Z.%s %s %s)" % (x.lower(), a, b)
+        if re.fullmatch(r"[A-Za-z_]\w*", x):
+            if peek() == "->":
+                eat("->")
+                x = eat()
+            if peek() == "(":
+                raise TranslateError("call to %s in C expression %r" % (x, txt))
+            free.add(x)
+            return x
+        raise TranslateError("C expression %r: unexpected %r" % (txt, x))
+
+    def term():
+        e = atom()
+        while peek() == "*":
+            eat()
+            e = "(%s * %s)" % (e, atom())
+        return e
+
+    def expr():
+        e = term()
+        while peek() in ("+", "-"):
+            op = eat()
+            e = "(%s %s %s)" % (e, op, term())
+        return e
+    out = expr()
+    if peek() is not None:
+        raise TranslateError("C expression %r: trailing %r" % (txt, peek()))
+    return out, sorted(free)
+
+
+DIST_VARIANTS = ["dtw_distance", "dtw_distance_ndim", "dtw_distance_euclidean", "dtw_distance_ndim_euclidean"]
+
+
+def analyse_mem():
+    path = os.path.join(REPO, "src/DTAIDistanceC/DTAIDistanceC/dd_dtw.c")
+    txt = strip_comments(open(path).read())
+    fns = {}
+    for m in re.finditer(r"^seq_t\s+(\w+)\s*\(([^)]*)\)\s*\{", txt, flags=re.M | re.S):
+        start = m.end() - 1
+        fns[m.group(1)] = txt[start:match_brace(txt, start) + 1]
+    defs = []
+
+    def one(fn, pattern, what, n=1):
+        body = fns.get(fn)
+        if body is None:
+            raise TranslateError("function %s not found in dd_dtw.c" % fn)
+        ms = re.findall(pattern, body, flags=re.S)
+        if len(ms) != n:
+            raise TranslateError("%s: %s matched %d times (expected %d)" % (fn, what, len(ms), n))
+        return ms[0]
+    for v in DIST_VARIANTS:
+        e, fv = c_expr(one(v, r"idx_t\s+length\s*=\s*([^;]+);", "buffer length"))
+        defs.append(("c_%s_length" % v, fv, e))
+        e, fv = c_expr(one(v, r"for\s*\(i=0;\s*i<([^;]+);\s*i\+\+\)\s*\{\s*dtw\[i\]\s*=\s*0;", "psi_2b prologue bound"))
+        defs.append(("c_%s_psi2b_bound" % v, fv, e))
+        a, b = one(v, r"for\s*\(i=([^;]+);\s*i<([^;]+);\s*i\+\+\)\s*\{\s*if\s*\(dtw\[i1\*length \+ i\]", "psi_2e scan bounds")
+        e, fv = c_expr(a)
+        defs.append(("c_%s_psi2e_start" % v, fv, e))
+        e, fv = c_expr(b)
+        defs.append(("c_%s_psi2e_end" % v, fv, e))
+        e, fv = c_expr(one(v, r"malloc\(sizeof\(seq_t\)\s*\*\s*([^)]+)\)", "allocation size"))
+        defs.append(("c_%s_alloc" % v, fv, e))
+    return defs
+
+
 def coq_str_list(xs):
     return "[" + "; ".join('"%s"' % x for x in xs) + "]"
 
@@ -121,6 +226,20 @@ def main():
     text = "\n".join(lines) + "\n"
     os.makedirs(outdir, exist_ok=True)
     p = os.path.join(outdir, "Gen_omp.v")
+    old = open(p).read() if os.path.exists(p) else None
+    if old != text:
+        open(p, "w").write(text)
+    try:
+        defs = analyse_mem()
+    except (TranslateError, OSError) as exc:
+        print("TRANSLATE-ERROR: translate_c: %s" % exc)
+        sys.exit(2)
+    lines = ["(* GENERATED by tools/translate_c.py from src/DTAIDistanceC/DTAIDistanceC/dd_dtw.c -- do not edit *)",
+             "From Coq Require Import ZArith.", "Open Scope Z_scope.", ""]
+    for name, fv, e in defs:
+        lines.append("Definition %s %s : Z := %s." % (name, " ".join("(%s : Z)" % v for v in fv), e))
+    text = "\n".join(lines) + "\n"
+    p = os.path.join(outdir, "Gen_cmem.v")
     old = open(p).read() if os.path.exists(p) else None
     if old != text:
         open(p, "w").write(text)
